@@ -66,6 +66,27 @@ def has_parallel_unit_field(obs):
     return float(sv[-1] / sv[0]) if sv[0] > 0 else 0.0, p, float(np.abs(np.abs(p) - 1).max())
 
 
+_EIG_CACHE = {}
+
+
+def eigen_vanishes(case, obs, i):
+    """closed surface, eigen path: does the eigenvector of the smallest eigenvalue of the observed connection Laplacian (generalised
+    by the vertex masses for the vertex-based field), that eigenvalue being simple, vanish at element i ?"""
+    import scipy.linalg as sla
+    key = id(obs)
+    if key not in _EIG_CACHE:
+        n = obs["lap_shape"][0]
+        L = dense(obs["lap"], n)
+        L = (L + L.conj().T) / 2
+        Bm = np.diag(obs["mass"]) if case["elem"] == "vertices" and "mass" in obs else np.eye(n)
+        w, v = sla.eigh(L, Bm)
+        simple = n >= 2 and (w[1] - w[0]) > 1e-6 * max(1.0, abs(w[-1]))
+        _EIG_CACHE.clear()
+        _EIG_CACHE[key] = (simple, np.abs(v[:, 0]))
+    simple, av = _EIG_CACHE[key]
+    return bool(simple and av[i] <= 1e-7 * av.max())
+
+
 def classify_crash(case, obs):
     """the field computation raised: -> (key, message, extra) ; the known class is an INPUT class, not an exception text:
     face-based field, closed surface, no feature edge (eigen path), and the connection Laplacian that was assembled is
@@ -120,6 +141,9 @@ def check(case, obs):
         elif cancels:
             fails.append(("unit/zero-constraint", "element %d (constrained) has modulus %.3g: the constraints of its feature "
                                                   "edges cancel (plain sum) and are left at 0" % (i, mod_i)))
+        elif (not has_feat) and obs["n_boundary_edges"] == 0 and case["n_smooth"] == 0 and eigen_vanishes(case, obs, i):
+            fails.append(("unit/zero-eigenvector", "element %d has modulus %.3g: closed surface without features, and the eigenvector of the "
+                                                   "smallest (simple) eigenvalue of the observed operator vanishes at this element" % (i, mod_i)))
         elif has_feat and i not in fixedset and i in solved and solved[i] <= 1.0000001e-10:
             fails.append(("unit/zero-solution", "free element %d has modulus %.3g: its solved value %.3g is below the 1e-10 "
                                                 "threshold and is left as it is" % (i, mod_i, solved[i])))
@@ -473,18 +497,19 @@ def compare_runs(case, obs, case2, obs2, vperm, fperm):
         pv = vperm[v]
         cs1, cs2 = vertex_contributions(case, obs, v), vertex_contributions(case2, obs2, pv)
         key, why = "gauge/constraint", "no recorded mechanism explains it"
-        if guarded and len(cs1) >= 2 and any(abs(a + b) < 1e-6 for k, a in enumerate(cs1) for b in cs1[k + 1:]):
-            # recorded mechanism: two cancelling contributions, the skipped update makes the outcome depend on their order
+        if guarded and len(cs1) >= 2:
+            # recorded mechanism: an update that would cancel the accumulated constraint is skipped, so the outcome depends on
+            # the order in which the contributions arrive: several outcomes exist and each run shows one of them
             o1, o2 = guarded_outcomes(cs1), guarded_outcomes(cs2)
             if len(o1) > 1 and any(abs(z1[v] - o) < 1e-7 for o in o1) and any(abs(z2[pv] - o) < 1e-7 for o in o2):
-                key, why = "gauge/conflicting-vertex-constraints", "two of its feature edges ask for opposite representation vectors"
+                key, why = "gauge/conflicting-vertex-constraints", "its feature edges ask for cancelling representation vectors, the skipped update depends on their order"
         if key == "gauge/constraint" and guarded and cs1 and not vertex_is_flat(case, v):
             # recorded mechanism: non-flat vertex, constraint = normalised sum of EXTRINSIC projections in both runs, and the
             # extrinsic direction of a feature edge is off the connection's own (intrinsic) angle of that edge
             e1, e2 = normed(sum(cs1)), normed(sum(cs2))
             i1, i2 = intrinsic_terms(obs, t1, v), intrinsic_terms(obs2, t2, pv)
             off = max([abs(a - b) for a, b in zip(cs1, i1)] + [abs(a - b) for a, b in zip(cs2, i2)] + [0.0])
-            noconf = not any(abs(a + b) < 1e-6 for k, a in enumerate(cs1) for b in cs1[k + 1:])
+            noconf = len(guarded_outcomes(cs1)) == 1
             if noconf and abs(z1[v] - e1) < 1e-7 and abs(z2[pv] - e2) < 1e-7 and off > TOLM:
                 key, why = "gauge/vertex-constraint-projection", ("non-flat vertex: the extrinsic projection of a feature edge is off "
                                                                   "the connection's own angle of that edge by %.3g" % off)
